@@ -23,7 +23,8 @@ CLAIM = dict(
           'evaluated compositionally over the inlined tendency code: every sum must combine equal parities, div/curl must receive components of opposite parity, and '
           'each prognostic tendency must come out with the parity of its field (vorticity odd, all others even); the metric factors are even functions of sin θ and '
           'the Coriolis parameter an odd one; the latitude-derivative recurrences shift the total wavenumber by exactly ±1. Also decided: the spectral mask keeps the cos / sin slots of one zonal wavenumber together (even slot limit, |m| in the triangle condition) in both layouts. Does not decide the commutation of '
-          'tendencies / steps with the symmetry operators numerically.'),
+          'tendencies / steps with the symmetry operators numerically.'
+          ' Later additions: C10.5 the mask keeps cos/sin pairs together.'),
     note=('Library facts: Gauss / equiangular latitude nodes and weights are symmetric about the equator (checked as linspace symmetric bounds under C01.6); '
           'P̄_l^m has parity (−1)^(l+m), so an operator that shifts l by one flips the parity.'),
     technique='taint (who-may-read the longitude coordinate) + abstract interpretation in a Z₂ parity domain with vector components over the inlined tendency terms',
